@@ -169,6 +169,24 @@ def chunk (d : Nat) : Nat → List α → List (List α)
 def showRow (r : List α) : String := ",".intercalate (r.map DrvScalar.render)
 def showMat (m : List (List α)) : String := ";".intercalate (m.map showRow)
 
+/-- `weightedParameterDerivative` of the kernels whose derivative code is modelled (leaves, scaled leaves) -/
+def paramGrad (ex : α → α) : Kern α → Mat α → Mat α → Mat α → Option (List α)
+  | .linear, _, _, _ => some []
+  | .poly deg off, C, X1, X2 => some [polyParamDeriv deg off C X1 X2]
+  | .gauss g, C, X1, X2 => some [gaussParamDeriv ex g C X1 X2]
+  | .ard gs, C, X1, X2 => some (ardParamDeriv ex gs C X1 X2 (gs.map fun _ => 0))
+  | .scaled f k, C, X1, X2 => (paramGrad ex k C X1 X2).map (scaledGrad f)
+  | _, _, _, _ => none
+
+/-- `weightedInputDerivative` of the same kernels -/
+def inputGrad (ex : α → α) : Kern α → Mat α → Mat α → Mat α → Option (Mat α)
+  | .linear, C, X1, X2 => some (linearInputDeriv C X1 X2)
+  | .poly deg off, C, X1, X2 => some (polyInputDeriv deg off C X1 X2)
+  | .gauss g, C, X1, X2 => some (gaussInputDeriv ex g C X1 X2)
+  | .ard gs, C, X1, X2 => some (ardInputDeriv ex gs C X1 X2)
+  | .scaled f k, C, X1, X2 => (inputGrad ex k C X1 X2).map fun G => G.map (scaledGrad f)
+  | _, _, _, _ => none
+
 structure St (α : Type) where
   kern : Option (Kern α) := none
   table : Option (Mat α) := none     -- DiscreteKernel
@@ -253,20 +271,16 @@ def step (s : St α) (line : String) : St α × String :=
           let C := chunk (d - c) (b - a) (cs.map valOf)
           let X1 := seg s.pts a b
           let X2 := seg s.pts c d
-          match k with
-          | .linear => (s, "g=")
-          | .poly deg off => (s, "g=" ++ DrvScalar.render (polyParamDeriv deg off C X1 X2))
-          | .gauss g => (s, "g=" ++ DrvScalar.render (gaussParamDeriv ex g C X1 X2))
-          | _ => (s, "unsupported")
+          match paramGrad ex k C X1 X2 with
+          | some g => (s, "g=" ++ showRow g)
+          | none => (s, "unsupported")
         | "ideriv", .inl a :: .inl b :: .inl c :: .inl d :: cs =>
           let C := chunk (d - c) (b - a) (cs.map valOf)
           let X1 := seg s.pts a b
           let X2 := seg s.pts c d
-          match k with
-          | .linear => (s, showMat (linearInputDeriv C X1 X2))
-          | .poly deg off => (s, showMat (polyInputDeriv deg off C X1 X2))
-          | .gauss g => (s, showMat (gaussInputDeriv ex g C X1 X2))
-          | _ => (s, "unsupported")
+          match inputGrad ex k C X1 X2 with
+          | some G => (s, showMat G)
+          | none => (s, "unsupported")
         | "gram", reg :: sizes =>
           match sizes.mapM natOf with
           | none => (s, "bad-op")
